@@ -39,6 +39,7 @@ func (o wop) token() (string, bool) {
 type c16state struct {
 	f       *excelize.File
 	counter int
+	dnCount int
 	// defined names created by the harness: name -> sheet id it was scoped to
 	scoped map[string]int
 }
@@ -69,7 +70,10 @@ func (st *c16state) apply(o wop) error {
 		}
 		return err
 	case "DN":
-		name := fmt.Sprintf("dn%d", len(st.scoped)+1)
+		// a fresh name for every call: a workbook-level name and a sheet-level one must not share a name here,
+		// the oracle below looks names up by name only
+		st.dnCount++
+		name := fmt.Sprintf("dn%d", st.dnCount)
 		err := f.SetDefinedName(&excelize.DefinedName{Name: name, RefersTo: "Sheet1!$A$1", Scope: o.A})
 		if err == nil {
 			for id, n := range f.GetSheetMap() {
